@@ -1504,6 +1504,17 @@ func (it *interp) doCall(st *state, fr *frame, in *ssa.Call) bool {
 		res = x
 	}
 	ev.Res = res
+	// havoc: a pointer to a local/heap allocation that escapes into an opaque callee may be written there
+	for _, a := range ev.Args {
+		if ad, ok := a.(*Addr); ok && (strings.HasPrefix(ad.K, "H:") || strings.HasPrefix(ad.K, "L:")) && ev.Callee != "errd.Wrap" {
+			pre := ad.K + "."
+			for mk := range st.mem {
+				if mk == ad.K || strings.HasPrefix(mk, pre) {
+					delete(st.mem, mk)
+				}
+			}
+		}
+	}
 	if it.opts.CallResult != nil {
 		if r := it.opts.CallResult(ev); r != nil {
 			ev.Res = r
